@@ -38,21 +38,20 @@ def actions (rule : PyVal) : PyVal :=
 /-- `attrs or attributes or {}` of a resource dict -/
 def attrsOf (r : PyVal) : PyVal := por (r.get "attrs") (por (r.get "attributes") (.dict []))
 
+/-- `_resource_covers` on the values it reads: the two types, the two ids, the two attribute dicts -/
+def coversV (o : Oracle) (et lt eid lid eattrs lattrs : PyVal) : Bool :=
+  if !(pyEq .none et || pyEq (.str "*") et) && o.pyStr et != o.pyStr lt then false
+  else if !eid.isNone then (if lid.isNone then false else o.pyStr eid == o.pyStr lid)
+  else
+    match eattrs, lattrs with
+    | .dict ekvs, .dict lkvs => ekvs.all fun kv => (lookup kv.1 lkvs).isSome && pyEq ((lookup kv.1 lkvs).getD .none) kv.2
+    | _, _ => true
+
 /-- `_resource_covers(earlier, later)` -/
 def resourceCovers (o : Oracle) (earlier later : PyVal) : Bool :=
   let er := por (earlier.get "resource") (.dict [])
   let lr := por (later.get "resource") (.dict [])
-  let et := er.get "type"
-  let lt := lr.get "type"
-  if !(pyEq .none et || pyEq (.str "*") et) && o.pyStr et != o.pyStr lt then false
-  else
-    let eid := er.get "id"
-    let lid := lr.get "id"
-    if !eid.isNone then (if lid.isNone then false else o.pyStr eid == o.pyStr lid)
-    else
-      match attrsOf er, attrsOf lr with
-      | .dict ekvs, .dict lkvs => ekvs.all fun kv => (lookup kv.1 lkvs).isSome && pyEq ((lookup kv.1 lkvs).getD .none) kv.2
-      | _, _ => true
+  coversV o (er.get "type") (lr.get "type") (er.get "id") (lr.get "id") (attrsOf er) (attrsOf lr)
 
 /-- `rule.get("effect") or "permit"` -/
 def effectOf (rule : PyVal) : PyVal := por (rule.get "effect") (.str "permit")
@@ -65,6 +64,12 @@ def firstApplicableUnreachable (o : Oracle) (earlier later : PyVal) : Bool :=
   if !pyEq (effectOf earlier) (effectOf later) then false
   else if !((Py.iter (actions later)).all fun a => (Py.iter (actions earlier)).any fun b => pyEq b a) then false
   else resourceCovers o earlier later
+
+/-- `_first_applicable_unreachable(earlier, later)` over arbitrary `_actions` / `_resource_covers` (what the source text computes) -/
+def firstApplicableUnreachableG (acts : PyVal → PyVal) (cov : PyVal → PyVal → PyVal) (earlier later : PyVal) : PyVal :=
+  if !pyEq (effectOf earlier) (effectOf later) then .bool false
+  else if !((Py.iter (acts later)).all fun a => (Py.iter (acts earlier)).any fun b => pyEq b a) then .bool false
+  else cov earlier later
 
 /-! ### the algorithm a policy is analysed under -/
 
